@@ -68,6 +68,8 @@ def _creates(act):
         out.append('U:' + act['sym'])
     elif a == 'currency_reg':
         out.append('U:' + act['code'])
+    elif a == 'table_conv':
+        out.append(f"C:{act['type']}:{act.get('seq', 1)}")
     return out
 
 
@@ -79,6 +81,10 @@ def _needs(act):
     if 'type' in act:
         out.append('T:' + act['type'])
     if a == 'table_conv':
+        if act.get('seq', 1) > 1:
+            # converters are consulted most recent first: their order is
+            # part of the program, not of the history
+            out.append(f"C:{act['type']}:{act['seq'] - 1}")
         for u1, u2, _f, _o in act['table']:
             out += ['U:' + u1, 'U:' + u2]
     if a == 'scaled_unit':
@@ -210,9 +216,19 @@ def gen(seed, run, tier='quick'):
                'expect': 'accept'}
         decl.apply(model, act)
         decls.append(act)
+        if rng.random() < 0.5:
+            # a second converter for the same pairs, registered later: from
+            # then on it answers
+            act = {'a': 'table_conv', 'type': tn, 'seq': 2,
+                   'table': [[u1, u2, f + rng.choice([1, 4]), o + 2]
+                             for u1, u2, f, o in table],
+                   'expect': 'accept'}
+            decl.apply(model, act)
+            decls.append(act)
         for u1, u2, _f, _o in table:
             scenario_probes += [('qq/', u1, u2), ('qq/', u2, u1),
-                                ('qu/', u1, u2), ('qq/', u1, u2)]
+                                ('qu/', u1, u2), ('qq/', u1, u2),
+                                ('uu/', u1, u2)]
     if rng.random() < 0.2:
         # scenario: a *quantized* type with a unit whose scale is off the
         # quantum grid, and an operation that is delivered either in that
@@ -331,6 +347,33 @@ def gen(seed, run, tier='quick'):
              'expect': 'accept'})
         scenario_probes += [('uu*', km, xu), ('uu*', xu, km),
                             ('qq*', km, xu)]
+    if rng.random() < 0.1:
+        # scenario: symbols that look like rendered terms.  X*Y has the
+        # unit 'x·y'; its square renders as 'x·y²' when written without
+        # parentheses - which is the symbol of the unit of X*Y**2, another
+        # type.  (x·y)**2 must be a unit of X**2*Y**2 in every history.
+        def add(act):
+            decl.apply(model, act)
+            decls.append(act)
+        n = model.fresh()
+        xn, x_ = f'T{n}', f'r{n}'
+        add({'a': 'base_type', 'name': xn, 'ref_sym': x_, 'quantum': None,
+             'expect': 'accept'})
+        n = model.fresh()
+        yn, y_ = f'T{n}', f'r{n}'
+        add({'a': 'base_type', 'name': yn, 'ref_sym': y_, 'quantum': None,
+             'expect': 'accept'})
+        for items_, sym_ in (([[xn, 1], [yn, 1]], f'{x_}·{y_}'),
+                             ([[xn, 1], [yn, 2]], f'{x_}·{y_}²'),
+                             ([[xn, 2], [yn, 2]], f'{x_}²·{y_}²')):
+            n = model.fresh()
+            add({'a': 'derived_type', 'name': f'D{n}', 'items': items_,
+                 'style': rng.randrange(3), 'ref_sym': sym_,
+                 'auto_ref': False, 'quantum': None, 'expect': 'accept',
+                 'dup_dim': False})
+        xy = f'{x_}·{y_}'
+        scenario_probes += [('u**', xy, xy), ('qq*', xy, xy),
+                            ('uu*', xy, xy), ('u**', xy, xy)]
     if rng.random() < 0.15:
         # scenario: two different units of one type WITHOUT reference unit
         # (two currencies, two plain units) in one product, reached by
@@ -892,6 +935,8 @@ def judge(h):
             violations.append(dict(facts, oracle='history'))
 
     evals = {}      # probe id -> list of (world, step, pre, outcome)
+    finals = {}     # probe id -> evaluations after the last declaration
+    same_end_state = [True]
     logs = []
     n_steps = 0
     for w, steps in enumerate(h['ops']):
@@ -901,11 +946,20 @@ def judge(h):
         logs.append(out)
         n_steps += len(out)
         model = new_model(cfg['variant'])
+        model.conv_total = {}
+        for d_ in decls:
+            if d_['a'] == 'table_conv':
+                model.conv_total[d_['type']] = \
+                    model.conv_total.get(d_['type'], 0) + 1
         undefined_before = {}      # probe id -> step where it raised
         order_sig = []
+        decl_left = sum(1 for s_ in steps if s_[0] == 'decl')
         for si, rec in enumerate(out):
             if rec[0] == 'decl':
+                decl_left -= 1
                 act = decls[rec[1]]
+                if rec[2] != 'ok':
+                    same_end_state[0] = False
                 if rec[2] == 'ok':
                     decl.apply(model, act, rec[3])
                     order_sig.append(rec[1])
@@ -916,6 +970,7 @@ def judge(h):
                     bump(faults, 'rejected_declaration_as_noise')
                 elif rec[2] == 'ok':
                     bump(pr, 'noise_declaration_accepted')
+                    same_end_state[0] = False
             elif rec[0] == 'evict':
                 bump(faults, 'memo_eviction')
             elif rec[0] == 'other':
@@ -936,6 +991,8 @@ def judge(h):
                 recs = [o1] + ([rec[3]] if len(rec) > 3 else [])
                 for o in recs:
                     evals.setdefault(rec[1], []).append((w, si, pre, o))
+                    if decl_left == 0:
+                        finals.setdefault(rec[1], []).append((w, si, o))
                 # ---- oracle 3: repeating returns an equal result
                 if len(rec) > 3:
                     bump(pr, 'evaluated_twice_in_a_row')
@@ -974,6 +1031,23 @@ def judge(h):
                  and len(e[3]) > 5}
         if len(units) >= 2:
             bump(pr, 'result_unit_differs_between_histories')
+    # ---- oracle 4: after the last declaration all histories have
+    # declared the same; whatever an operation yields then (a value or a
+    # refusal), it yields in every history
+    if same_end_state[0]:
+        for pid, lst in finals.items():
+            ref = None
+            for w_, si_, o_ in lst:
+                key = o_[:5] if o_[0] == 'ok' else ('refused',)
+                if ref is None:
+                    ref = (w_, si_, o_, key)
+                elif key != ref[3]:
+                    violate('end_state_outcome_differs', probe=probes[pid],
+                            world_a=ref[0], step_a=ref[1], outcome_a=ref[2],
+                            world_b=w_, step_b=si_, outcome_b=o_)
+                    break
+            if len({w_ for w_, _s, _o in lst}) >= 2:
+                bump(pr, 'end_state_compared_across_worlds')
     res = {'digest': core.digest(logs), 'violations': violations,
            'known': known, 'faults': faults, 'probes': pr,
            'ops': n_steps, 'worlds': len(h['ops']),
@@ -1001,9 +1075,13 @@ def _precondition(model, p):
             # converter relates the two units (in either direction)
             if p['s1'] == p['s2']:
                 return True
+            # (... and all converters the program registers for the type
+            # are registered: the most recent one answers)
             pairs = model.types[t1].get('conv_pairs', [])
-            return (p['s1'], p['s2']) in pairs or \
-                (p['s2'], p['s1']) in pairs
+            return ((p['s1'], p['s2']) in pairs or
+                    (p['s2'], p['s1']) in pairs) and \
+                model.types[t1].get('n_convs', 0) == getattr(
+                    model, 'conv_total', {}).get(t1, 1)
     try:
         if form in ('u**', 'q**'):
             if p['n'] == 0:
